@@ -113,9 +113,9 @@ where
         let t := match t with
           | ';' :: u => u
           | _ => t
-        let acc := match keyOf k with
-          | .ok kk => insert acc k kk v
-          | _ => acc
+        let acc := match keyOfStored k with
+          | some kk => insert acc k kk v
+          | none => acc
         parseArr depth t acc
   parseCarr (depth : Nat) (s : List Char) (acc : List Val) : Option (Val × List Char) :=
     match s with
